@@ -38,10 +38,25 @@ class Fn:
     def __call__(self, t):
         if self.name == 'boom':
             raise ValueError('boom from fn')
+        if self.name == 'copy':
+            return equal_copy(t)
         return t
 
     def __repr__(self):
         return 'fn_' + self.name
+
+
+def equal_copy(t):
+    """an EQUAL but not identical value (the trace must still show it as a new target)"""
+    if isinstance(t, dict):
+        return dict(t)
+    if isinstance(t, list):
+        return list(t)
+    if isinstance(t, bool):
+        return t
+    if isinstance(t, int):
+        return float(t)
+    return t
 
 
 def build(term):
@@ -79,6 +94,8 @@ def build(term):
         obj = Auto(build(term[1][0]))
     elif k == 'coalesce':
         obj = Coalesce(*[build(x) for x in term[1]])
+    elif k == 'coalesce_skip':
+        obj = Coalesce(*[build(x) for x in term[1]], skip=SKIP_VALUE)
     elif k == 'or':
         obj = Or(*[build(x) for x in term[1]])
     elif k == 'and':
@@ -92,6 +109,7 @@ def build(term):
 
 
 LIVE = {}
+SKIP_VALUE = 3     # targets()['*']['n'] == 3: a branch reading it yields a skipped VALUE (no error)
 
 
 EID = [0]
@@ -146,6 +164,8 @@ def ev(term, target):
     if k == 'fn':
         if term[1] == 'boom':
             raise F('ValueError', False)
+        if term[1] == 'copy':
+            return equal_copy(target)
         return target
     if k == 'check':
         if type(target) is str:
@@ -221,6 +241,26 @@ def ev(term, target):
                 attempts.append({'spine': f.spine, 'err': f.err, 'closed': False})
                 raise Fail(f.err, False, [frame(term, target, attempts)], f.eid)
         raise Fail('CoalesceError', True, [frame(term, target, attempts)])
+    if k == 'coalesce_skip':
+        attempts = []
+        last_was_attempt = False
+        for kid in kids:
+            try:
+                v = ev(kid, target)
+            except Fail as f:
+                if f.is_glom:
+                    attempts.append({'spine': f.spine, 'err': f.err, 'closed': True})
+                    last_was_attempt = True
+                    continue
+                attempts.append({'spine': f.spine, 'err': f.err, 'closed': False})
+                raise Fail(f.err, False, [frame(term, target, attempts)], f.eid)
+            if v == SKIP_VALUE:
+                last_was_attempt = False
+                continue
+            return v
+        fr = frame(term, target, attempts)
+        fr['single_inline'] = last_was_attempt     # a lone failed branch is in-lined only when it was the last child evaluated
+        raise Fail('CoalesceError', True, [fr])
     if k == 'or':
         attempts = []
         for i, kid in enumerate(kids):
@@ -316,10 +356,10 @@ def expected_items(stack, depth, root_eid, prev_target, out):
         for fr in frames:
             flat.append(fr)
             at = fr['attempts']
-            if at and len(at) == 1:
+            if at and len(at) == 1 and fr.get('single_inline', True):
                 flatten(at[0]['spine'])
                 return True
-            if at and len(at) >= 2:
+            if at:
                 return True
         return False
     flatten(stack)
@@ -329,7 +369,7 @@ def expected_items(stack, depth, root_eid, prev_target, out):
         if fr['target'] is not prev_target and not fr['optional']:
             prev_target = fr['target']
         at = fr['attempts']
-        branch = bool(at) and len(at) >= 2
+        branch = bool(at) and (len(at) >= 2 or not fr.get('single_inline', True))
         out.append({'kind': 'S', 'obj': fr['spec'], 'text': fr['text'], 'depth': depth, 'optional': fr['optional'], 'branch': branch})
         if branch:
             for a in at:
@@ -461,7 +501,7 @@ def kinds(term):
     return [k] + [x for kid in term[1] for x in kinds(kid)]
 
 
-OK_LEAVES = [['path', 'a'], ['fn', 'ok'], ['T', 'n'], ['val', 'v']]
+OK_LEAVES = [['path', 'a'], ['fn', 'ok'], ['fn', 'copy'], ['T', 'n'], ['val', 'v']]
 FAIL_LEAVES = [['path', 'zz'], ['T', 'zz'], ['Tattr', 'zz'], ['fn', 'boom'], ['check'], ['m', 5], ['match'], ['S', 'zz'], ['path', 'a.zz']]
 
 
@@ -508,6 +548,8 @@ def composites(kids):
         out.append(['tuple', [a, b]])
         out.append(['pipe', [a, b]])
         out.append(['coalesce', [a, b]])
+        out.append(['coalesce_skip', [a, b]])
+        out.append(['coalesce_skip', [a, ['T', 'n']]])
         out.append(['or', [a, b]])
         out.append(['and', [a, b]])
         out.append(['switch', [[a, ['val', 1]], [b, ['path', 'zz']]]])
@@ -526,7 +568,7 @@ def gen_cases(tier):
         if buckets.get(key, 0) < K:
             buckets[key] = buckets.get(key, 0) + 1
             reps.append(t)
-    kids2 = [['path', 'a'], ['path', 'zz'], ['fn', 'boom']] + RECOVERED + reps
+    kids2 = [['path', 'a'], ['path', 'zz'], ['fn', 'boom'], ['fn', 'copy'], ['tuple', [['T', 'n'], ['fn', 'copy']]]] + RECOVERED + reps
     level2 = composites(kids2)
     terms += level2
     if tier != 'quick':
@@ -561,4 +603,4 @@ def subs(tier, only=None):
                 rule='case = (target kind, spec term with at least one failing leaf reached); the parsed trace is compared with the failure spine of '
                      'the reference interpreter; non-trivial = the evaluation fails',
                 min_nontrivial=2000, min_outcomes=5,
-                required_tags=['dict', 'list', 'tuple', 'pipe', 'spec', 'auto', 'coalesce', 'or', 'and', 'switch', 'short', 'long', 'unicode'])]
+                required_tags=['dict', 'list', 'tuple', 'pipe', 'spec', 'auto', 'coalesce', 'coalesce_skip', 'or', 'and', 'switch', 'fn:copy', 'short', 'long', 'unicode'])]
